@@ -87,6 +87,9 @@ def _run_batch(modname, specs, tmpdir, bi, timeout, extra_env=None):
     return bi, results, status, time.time() - t0
 
 
+SLOWEST = []
+
+
 def run_check(mod, tier, seed, replay=None, budget_s=None):
     prop = mod.PROPERTY
     t0 = time.time()
@@ -143,6 +146,7 @@ def run_check(mod, tier, seed, replay=None, budget_s=None):
                 for fut in done:
                     bi, b = pending.pop(fut)
                     _, res, status, _dt = fut.result()
+                    SLOWEST.append((round(_dt, 1), [sp.get("i") for sp in b][:4]))
                     results.extend(res)
                     done_cases += len(res)
                     if status != "ok":
@@ -267,6 +271,8 @@ def _conclude(mod, tier, seed, specs, results, problems, stopped_by, t0):
     print(f"{prop} {tier} seed={seed}: {len(results)}/{len(specs)} cases, {len(sigs)} distinct non-trivial, "
           f"{len(viol_unknown)} violation(s), {sum(len(v) for v in viol_known.values())} known, "
           f"{unjudged} unjudged, {wall:.1f}s, stopped_by={stopped_by}")
+    if SLOWEST and os.environ.get("VERIF_TIMING"):
+        print("  slowest batches (s, case indices):", sorted(SLOWEST, reverse=True)[:5])
     for k in sorted(counters):
         print(f"  counter {k} = {counters[k]}")
     for k in sorted(sets):
